@@ -230,6 +230,11 @@ descriptorLoop2:
 				}
 			}
 		}
+		// Arguments which only may be of the expected type are checked at runtime.
+		assertedArguments := make(map[string]physical.TableValuedFunctionArgument, len(physicalArguments))
+		for name, arg := range physicalArguments {
+			assertedArguments[name] = arg
+		}
 		for name, arg := range arguments {
 			matcher, ok := descriptor.Arguments[name]
 			if !ok {
@@ -240,13 +245,30 @@ descriptorLoop2:
 			}
 			switch arg.Argument.TableValuedFunctionArgumentType {
 			case physical.TableValuedFunctionArgumentTypeExpression:
-				if rel := arg.Argument.Expression.Expression.Type.Is(matcher.Expression.Type); rel < octosql.TypeRelationMaybe {
+				rel := arg.Argument.Expression.Expression.Type.Is(matcher.Expression.Type)
+				if rel < octosql.TypeRelationMaybe {
 					continue descriptorLoop2
+				}
+				if rel == octosql.TypeRelationMaybe {
+					assertedArguments[name] = physical.TableValuedFunctionArgument{
+						TableValuedFunctionArgumentType: physical.TableValuedFunctionArgumentTypeExpression,
+						Expression: &physical.TableValuedFunctionArgumentExpression{
+							Expression: physical.Expression{
+								ExpressionType: physical.ExpressionTypeTypeAssertion,
+								Type:           *octosql.TypeIntersection(matcher.Expression.Type, arg.Argument.Expression.Expression.Type),
+								TypeAssertion: &physical.TypeAssertion{
+									Expression: arg.Argument.Expression.Expression,
+									TargetType: matcher.Expression.Type,
+								},
+							},
+						},
+					}
 				}
 			case physical.TableValuedFunctionArgumentTypeTable:
 			case physical.TableValuedFunctionArgumentTypeDescriptor:
 			}
 		}
+		physicalArguments = assertedArguments
 		outSchema, outputMapping, err := descriptor.OutputSchema(ctx, env, logicalEnv, arguments)
 		if err != nil {
 			panic(err)
